@@ -178,11 +178,13 @@ def make_scratch():
 
 
 def run_one(job):
-    relfile, prop, cand, workers, baseline, full = job
+    relfile, prop, cand, workers, baseline, full, text = job
     scratch = make_scratch()
     try:
         path = os.path.join(scratch, relfile)
-        text = open(path).read()
+        if open(path).read() != text:
+            # /repo changed since the candidate sites were computed: positions would be wrong
+            return {'id': mutant_id(relfile, cand), 'file': relfile, 'prop': prop, 'kind': cand[0], 'line': cand[1], 'desc': cand[5], 'status': 'stale'}
         new = apply(text, cand)
         rec = {'id': mutant_id(relfile, cand), 'file': relfile, 'prop': prop, 'kind': cand[0], 'line': cand[1], 'desc': cand[5],
                'old_line': text.split('\n')[cand[1] - 1].strip()[:160]}
@@ -269,7 +271,7 @@ def main():
             if cand is None:
                 print(mid, 'stale')
                 continue
-            rec = run_one((r['file'], prop, cand, 16, base, True))
+            rec = run_one((r['file'], prop, cand, 16, base, True, text))
             rec['rechecked'] = True
             with open(RESULTS, 'a') as f:
                 f.write(json.dumps(rec) + '\n')
@@ -287,13 +289,16 @@ def main():
     print(f'{a.file} {a.prop}: {len(lines)} covered lines, {len(cands)} candidate sites, running {len(todo)}')
     basefail = baseline_failures(TESTS[base])
     print('baseline failures in related tests:', basefail)
-    jobs = [(a.file, a.prop, c, a.workers, basefail, False) for c in todo]
+    jobs = [(a.file, a.prop, c, a.workers, basefail, False, text) for c in todo]
     counts = {}
     with cf.ThreadPoolExecutor(max_workers=a.jobs) as ex:
         for rec in ex.map(run_one, jobs):
             counts[rec['status']] = counts.get(rec['status'], 0) + 1
-            with open(RESULTS, 'a') as f:
-                f.write(json.dumps(rec) + '\n')
+            if rec['status'] != 'stale':
+                with open(RESULTS, 'a') as f:
+                    f.write(json.dumps(rec) + '\n')
+            if rec['status'] == 'stale':
+                continue
             if rec['status'] in ('MISSED', 'broken'):
                 print(rec['status'], rec['id'], f"{rec['file']}:{rec['line']}", rec['desc'], '|', rec.get('new_line', ''), flush=True)
     print(counts)
